@@ -103,11 +103,22 @@ CLAIMED["C06"] = dict(
     technique="Kani harness contract over enumerated (size, split, chunking) shapes with symbolic contents; scripted AsyncRead + hand-written block_on",
 )
 
+CLAIMED["C11"] = dict(
+    category="model_checking",
+    text="Bounded, request side only. The MapAccess steps of the real Cookie deserializer are driven over jar templates with symbolic contents: `N=VV; M=W`, `N=\"VV\"; M=W` and `N=VV` "
+         "(names any RFC 6265 token byte, values any cookie-octet except `%`, `=` included): every name and value decodes to what was sent, in order, double quotes stripped, nothing after the last "
+         "cookie; and `n=%XY` for all 256 escapes decodes to the byte when it is ASCII and is an error otherwise. Cookie name/value validators for all short inputs are under contract in C08.",
+    design_ref="DESIGN.md §4 C11, §8.2",
+    note="NOT under a discharged contract: decoding into serde-derived structs (the derive glue does not get through CBMC), the request's cookie iterator util::iter_cookies, and the whole "
+         "response side (SetCookieBuilder::build / SetCookie::from_raw round trip). percent-encoding and core::str::from_utf8 replaced by assumed contracts. A genuine defect found by these "
+         "obligations was repaired (fix: 730e713, `=` inside a cookie value).",
+    technique="Kani harness contracts over jar templates with symbolic contents (round trip against the identity encoder)",
+)
+
 NOT_APPLICABLE = {
     "C04": "fang order is the order of side effects of opaque boxed async closures composed at configuration time; the final Node keeps only the composed closures, so no postcondition over a function result can name 'which fangs, in which order' without ghost fields in production structs (DESIGN §4 C04)",
     "C09": "not built in the time available (planned as method-level serialize/deserialize round trips, DESIGN §4 C09); whole from_bytes::<T> through serde-derived impls does not get through CBMC's symbolic execution",
-    "C10": "not built in the time available (planned as template harnesses on Multipart::parse, DESIGN §4 C10)",
-    "C11": "not built as its own check in the time available; the cookie value/name validators are under contract in C08, the Set-Cookie builder/parser round trip is not",
+    "C10": "template harnesses on Multipart::parse exist (harness/C10) but only the templates with EMPTY content are decided by CBMC (1-3 symbolic content bytes: timeout / out of memory), which does not decide a round-trip property; the decided templates run inside C08 and found a defect (fix: 78610a4)",
     "C12": "the decision runs through HMAC-SHA2, base64url and serde_json in one function; SHA-2 on symbolic input is out of reach for CBMC and Kani cannot stub the generic trait methods involved (DESIGN §4 C12)",
     "C13": "a harness contract exists (harness/C13) with base64 decoding as an assumed contract, but one decided shape takes ~9 min under CBMC and others run out of memory: not reliable enough to register (DESIGN §8.2)",
     "C14": "half of the property is whole-configuration data flow (allowed-method lists assembled during registration through HashMap/RandomState and leaked closures), not a function result; claiming it on the header matrix of CORSProc::bite alone would decide only part of it (DESIGN §4 C14)",
